@@ -886,6 +886,13 @@ def run(res, tier, seed, replay):
                   b"JSIGHT 0.3\nGET /pets\n  200 any\n  TYPE @error\n    {}\n  404 @error\n"))
     twice.append((b"JSIGHT 0.3\nMACRO @e\n(\n  Query\n    {}\n  Body any\n)\nPOST /pets\n  Request\n    Headers\n      {}\n    PASTE @e\n  200 any\n",
                   b"JSIGHT 0.3\nPOST /pets\n  Request\n    Headers\n      {}\n    Query\n      {}\n    Body any\n  200 any\n"))
+    # what a PASTE brings into a URL block is checked like what is written there (HTTP and JSON-RPC may not mix)
+    twice.append((b"JSIGHT 0.3\nMACRO @http\n(\n  GET\n    200 any\n)\nURL /api/rpc\n  Protocol json-rpc-2.0\n  Method ping\n    Params\n      {}\n  PASTE @http\n",
+                  b"JSIGHT 0.3\nURL /api/rpc\n  Protocol json-rpc-2.0\n  Method ping\n    Params\n      {}\n  GET\n    200 any\n"))
+    twice.append((b"JSIGHT 0.3\nMACRO @rpc\n(\n  Protocol json-rpc-2.0\n  Method ping\n)\nURL /api\n  GET\n    200 any\n  PASTE @rpc\n",
+                  b"JSIGHT 0.3\nURL /api\n  GET\n    200 any\n  Protocol json-rpc-2.0\n  Method ping\n"))
+    twice.append((b"JSIGHT 0.3\nMACRO @q\n(\n  Query\n    {}\n  Headers\n    {}\n)\nGET /a\n  200 any\n  PASTE @q\n",
+                  b"JSIGHT 0.3\nGET /a\n  200 any\n  Query\n    {}\n  Headers\n    {}\n"))
     o_tw = run_impl([P.run_line("out=sha", [("a.jst", d)]) for pair in twice for d in pair])
     res.count(len(o_tw))
     tw_dist = {"both accepted": 0, "both rejected": 0}
@@ -895,7 +902,8 @@ def run(res, tier, seed, replay):
         if sa == sb == "ok" and P.parse(a)[1].get("sha") == P.parse(b)[1].get("sha"):
             tw_dist["both accepted"] += 1
             res.nontrivial(("pasted-twice", wm))
-        elif sa == sb == "err" and err_class(a) == err_class(b):
+        elif sa == sb == "err":
+            # (the property speaks of ACCEPTED documents with macros; two rejections need not name the same stage)
             tw_dist["both rejected"] += 1
             res.nontrivial(("pasted-twice", wm))
         else:
